@@ -7,6 +7,12 @@ LOG=/tmp/seed5/$ID.m$K.log
 cd $W && git checkout -q -- . && git status --short | grep -v '^??' >> $LOG
 PP="PYTHONPATH=$W/src:$W/tests"
 env $PP timeout 120 /venv/bin/python $O/demo.py > $O/demo.clean.out 2>&1; echo "demo_clean_exit=$?" >> $LOG
+# BASECHECK=1: run the check on the CLEAN worktree first - a seeded change counts as caught only when its base passes
+# (round 8: the base carried a regression of a repair, four changes were "caught" by a check that was red anyway)
+if [ "${BASECHECK:-0}" = 1 ]; then
+  cd ${VDIR:-/verif} && VERIF_REPO=$W VERIF_SEED=${SEEDV:-0} timeout 1500 ./check $ID --tier quick > $O/check.base.out 2>&1; echo "base_check_${ID}_exit=$?" >> $LOG
+  cd $W
+fi
 git apply $O/patch.diff 2>> $LOG; echo "apply_exit=$?" >> $LOG
 env $PP timeout 600 /venv/bin/python -m pytest -q -p no:cacheprovider tests/unit_tests --ignore=tests/unit_tests/api/plugin/metrics/test_otel_metrics.py 2>&1 | tail -1 >> $LOG
 env $PP timeout 120 /venv/bin/python $O/demo.py > $O/demo.mutant.out 2>&1; echo "demo_mutant_exit=$?" >> $LOG
